@@ -37,10 +37,13 @@ type PeerPlan struct {
 	MOTD      []string `json:"motd"` // master only, before the SID
 	FW        []string `json:"fw"`   // entries of the ;FW: line ("CALL" or "CALL|12345678"); empty = no line
 	Challenge string   `json:"challenge"`
-	PQFirst   bool     `json:"pq_first,omitempty"` // the ;PQ line goes out before the SID line instead of after it
-	Prompt    string   `json:"prompt"`             // master: last handshake line, ends with '>'
-	Comment   string   `json:"comment"`            // slave: last handshake line, starts with ';'
-	Outbound  []OutMsg `json:"outbound"`
+	// RejectLogin (master with a challenge): after the station's handshake the peer refuses the login ("*** ...") and
+	// hangs up, as a CMS does for a wrong password. The station's answer is recorded as usual.
+	RejectLogin bool     `json:"reject_login,omitempty"`
+	PQFirst     bool     `json:"pq_first,omitempty"` // the ;PQ line goes out before the SID line instead of after it
+	Prompt      string   `json:"prompt"`             // master: last handshake line, ends with '>'
+	Comment     string   `json:"comment"`            // slave: last handshake line, starts with ';'
+	Outbound    []OutMsg `json:"outbound"`
 	// Answers maps a MID proposed by the station under test to the answer token the peer gives:
 	// + Y y (accept), - N n R r (reject), = L l H h (defer), !0 A0 a0 (accept from offset 0),
 	// !n An with n > 0 (resume from offset n: the peer then judges only the frame structure, the
@@ -333,6 +336,10 @@ func (p *peer) handshake() error {
 			}
 			if !p.plan.Master {
 				return p.sendOwnHandshake()
+			}
+			if p.plan.RejectLogin {
+				p.line("handshake", "reject", "*** [1] Secure login failed - account may be locked out")
+				return fmt.Errorf("login refused (planned)")
 			}
 			return nil
 		default:
@@ -826,7 +833,11 @@ func (p *peer) readFrame(pr Proposal, offset int) ([]byte, error) {
 				p.complain("frame-checksum", "transfer of %s: data sum %#x + checksum %#x != 0", pr.MID, byte(sum), ck)
 			}
 			if offset > 0 {
-				return nil, nil // resumed transfer: structure, offset and checksum only
+				// resumed transfer: structure, offset, checksum and the number of bytes (the rest of what was proposed)
+				if len(data) != pr.CSize-offset {
+					p.complain("frame-length", "resumed transfer of %s from offset %d: %d data bytes, the proposal declared %d in all", pr.MID, offset, len(data), pr.CSize)
+				}
+				return nil, nil
 			}
 			if len(data) != pr.CSize {
 				p.complain("frame-length", "transfer of %s: %d data bytes, proposal declared %d", pr.MID, len(data), pr.CSize)
